@@ -295,13 +295,35 @@ def spec_parse_parsable_derived_array(self, items_size, item_classes, fallback_c
     return SSeq(n, code_at, 'list', ('coded', sp)), wrap_int(s)
 
 
+def derived_array_roles(frame, stmt=None):
+    """the locals of _parse_parsable_derived_array by ROLE, read off the code itself so that renaming a temporary does not
+    break the contract: parameters by position, the rest-of-input variable as the name tested by `while <name>:`, the result
+    list as the name the loop body appends to"""
+    import ast
+    import inspect
+    params = list(inspect.signature(frame.fn).parameters)
+    roles = dict(self=params[0], items_size=params[1], item_classes=params[2], fallback_class=params[3])
+    loop = stmt
+    if loop is None:
+        loop = next((n for n in ast.walk(frame.node) if isinstance(n, ast.While)), None)
+    if loop is not None and isinstance(loop.test, ast.Name):
+        roles['rest'] = loop.test.id
+        for n in ast.walk(loop):
+            if isinstance(n, ast.Call) and isinstance(n.func, ast.Attribute) and n.func.attr == 'append' and isinstance(n.func.value, ast.Name):
+                roles['items'] = n.func.value.id
+    roles.setdefault('rest', 'unparsed_bytes')
+    roles.setdefault('items', 'items')
+    return roles
+
+
 def loop_parse_parsable_derived_array():
     def ctxvals(frame):
-        me = frame.lookup('self')
+        r = derived_array_roles(frame)
+        me = frame.lookup(r['self'])
         p = ops.as_seq(me.f['_parsable'])
         pl = as_int(me.f['_parsed_length'])
-        s = as_int(frame.lookup('items_size'))
-        sp = coded_kind(list(frame.lookup('item_classes')), frame.lookup('fallback_class'))
+        s = as_int(frame.lookup(r['items_size']))
+        sp = coded_kind(list(frame.lookup(r['item_classes'])), frame.lookup(r['fallback_class']))
         if sp is None:
             raise E.Unsupported('_parse_parsable_derived_array over variable-size items needs a bound')
         return p, pl, s, sp
@@ -314,7 +336,8 @@ def loop_parse_parsable_derived_array():
             items = SSeq(k, lambda j: sp.first_index(code_at(j)), 'list', ('enum', sp.enum_cls))
         else:
             items = SSeq(k, code_at, 'list', ('coded', sp))
-        return {'unparsed_bytes': V.slice_seq(p, pl + V.iv(k) * w, pl + s, 'bytes'), 'items': items}
+        r = derived_array_roles(frame, getattr(ctx, 'stmt', None))
+        return {r['rest']: V.slice_seq(p, pl + V.iv(k) * w, pl + s, 'bytes'), r['items']: items}
 
     def qfacts(frame, ctx):
         p, pl, s, sp = ctxvals(frame)
@@ -327,7 +350,7 @@ def loop_parse_parsable_derived_array():
         p, pl, s, sp = ctxvals(frame)
         return [V.iv(k) * sp.width <= s]
     lc = loops.FunctionalLoop(state, qfacts, facts)
-    lc.applies = lambda frame: coded_kind(list(frame.lookup('item_classes')), frame.lookup('fallback_class')) is not None
+    lc.applies = lambda frame: (lambda r: coded_kind(list(frame.lookup(r['item_classes'])), frame.lookup(r['fallback_class'])) is not None)(derived_array_roles(frame))
     return lc
 
 
